@@ -506,6 +506,8 @@ pub struct Store {
     pub bodies: Vec<String>,
     pub towers: Vec<String>,
     pub proofs: Vec<String>,
+    /// registration receipts in the order they were recorded: (tower id hex, slots, start, expiry, signature)
+    pub registrations: Vec<(String, u32, u32, u32, String)>,
 }
 
 pub fn read_store(dir: &ClientDir) -> Option<Store> {
@@ -532,6 +534,11 @@ pub fn read_store(dir: &ClientDir) -> Option<Store> {
         bodies: single("SELECT lower(hex(locator)) FROM appointments ORDER BY 1")?,
         towers: single("SELECT lower(hex(tower_id)) FROM towers ORDER BY 1")?,
         proofs: single("SELECT lower(hex(tower_id)) FROM misbehaving_proofs ORDER BY 1")?,
+        registrations: {
+            let mut st = conn.prepare("SELECT lower(hex(tower_id)), available_slots, subscription_start, subscription_expiry, CAST(signature AS TEXT) FROM registration_receipts ORDER BY rowid").ok()?;
+            let rows = st.query_map([], |r| Ok((r.get::<_, String>(0)?, r.get::<_, u32>(1)?, r.get::<_, u32>(2)?, r.get::<_, u32>(3)?, r.get::<_, Option<String>>(4)?.unwrap_or_default()))).ok()?;
+            rows.filter_map(|r| r.ok()).collect()
+        },
     })
 }
 
